@@ -545,6 +545,7 @@ with self.current_node_context(row, append=True):
 def table_row_src(fn: ast.FunctionDef) -> str:
     """render_table_row: the statements are fixed up to the tuple of alignment styles; the class each style produces is
     computed with the f-string of the source"""
+    fn = drop_lines(fn)
     body = [s for s in fn.body if not (isinstance(s, ast.Expr) and const_str(s.value) is not None)]
     need(len(body) == 2 and isinstance(body[1], ast.With), "render_table_row shape")
     loop = body[1].body[0]
@@ -688,16 +689,13 @@ T_HEADING = """level = int(token.tag[1]) + self._heading_offset
 parent_of_temp_root = self.md_env.get('temp_root_node', None) is not None and self.current_node == self.md_env['temp_root_node']
 if not (parent_of_temp_root or isinstance(self.current_node, nodes.document | nodes.section)):
     rubric = nodes.rubric(token.content, '', level=level)
-    self.add_line_and_source_path(rubric, token)
     self.copy_attributes(token, rubric, <<rkeys>>)
     with self.current_node_context(rubric, append=True):
         self.render_children(token)
     self.generate_heading_target(token, level, rubric, rubric)
     return
 new_section = nodes.section()
-self.add_line_and_source_path(new_section, token)
 title_node = nodes.title(token.children[0].content if token.children else '')
-self.add_line_and_source_path(title_node, token)
 new_section.append(title_node)
 self.copy_attributes(token, new_section, <<skeys>>)
 if <<mjtest>> and self.blocks_mathjax_processing:
@@ -716,7 +714,6 @@ assert header_row.children
 table = nodes.table()
 table['classes'] += <<classes>>
 self.copy_attributes(token, table, <<keys>>)
-self.add_line_and_source_path(table, token)
 self.current_node.append(table)
 maxcols = len(header_row.children)
 colwidths = [<<total>> // maxcols] * maxcols
@@ -739,7 +736,7 @@ if len(token.children) > 1:
 
 
 def section_state_src(fn, wtags) -> str:
-    h = match_template(norm(fn), T_SECTION_STATE, "update_section_level_state")
+    h = match_template(norm(drop_lines(fn)), T_SECTION_STATE, "update_section_level_state")
     tag = wtags.get(h["wtag"])
     need(tag is not None, "update_section_level_state warning")
     n = {"level": "level", "section_level": "section_level", "parent_level": "parent_level"}
@@ -751,7 +748,7 @@ def section_state_src(fn, wtags) -> str:
 
 
 def heading_src(fn) -> str:
-    h = match_template(norm(fn), T_HEADING, "render_heading")
+    h = match_template(norm(drop_lines(fn)), T_HEADING, "render_heading")
     mj = int_cmp(h["mjtest"], {"level": "level"}, "mathjax test")
     return ("(* render_heading: the statements are fixed (gen/c02_pysrc.py T_HEADING) up to the copied keys, the MathJax test and\n"
             "   classes; update_section_level_state = LevelParent (warning) + OpenSection, `self.current_node = new_section`\n"
@@ -776,7 +773,7 @@ def heading_src(fn) -> str:
 
 
 def table_src(fn) -> str:
-    h = match_template(norm(fn), T_TABLE, "render_table")
+    h = match_template(norm(drop_lines(fn)), T_TABLE, "render_table")
     need(h["total"].isdigit(), "render_table column width total")
     return ("(* render_table: statements fixed (T_TABLE) up to the classes, the copied keys and the width total; one colspec per\n"
             "   cell of the header row, the rows by render_table_row_src *)\n"
@@ -798,12 +795,38 @@ def table_src(fn) -> str:
 
 
 # ------------------------------------------------------------------ methods pinned by their text
+class _DropLines(ast.NodeTransformer):
+    """self.add_line_and_source_path(node, token) has no effect on the model (line / source are not modelled)"""
+
+    def visit_Expr(self, node):
+        if isinstance(node.value, ast.Call) and ast.unparse(node.value.func) == "self.add_line_and_source_path":
+            return None
+        return node
+
+
+def drop_lines(fn):
+    import copy
+    return ast.fix_missing_locations(_DropLines().visit(copy.deepcopy(fn)))
+
+
 def norm(fn) -> str:
     body = [s for s in fn.body if not (isinstance(s, ast.Expr) and const_str(s.value) is not None)]
     return "\n".join(ast.unparse(s) for s in body)
 
 
-SHAPES = ["current_node_context", "render_children", "_render_tokens"]
+SHAPES = ["current_node_context", "render_children", "_render_tokens",
+          # transcribed by hand in Doc/Render.v, neither translated nor templated: pinned
+          "render_footnote_ref", "render_footnote_reference", "render_fence", "render_code_block", "create_highlighted_code_block",
+          "render_link", "render_link_anchor", "render_link_unknown", "render_link_path", "render_link_project",
+          "render_myst_target", "render_myst_block_break", "render_myst_line_comment", "render_math_block",
+          "render_math_block_label", "render_amsmath", "render_dl", "render_field_list", "render_span", "render_directive",
+          "render_myst_role", "render_colon_fence"]
+# (file, class) pinned as a whole: the Sphinx overrides and the transforms of Doc/Transforms.v
+SHAPE_CLASSES = [("myst_parser/mdit_to_docutils/sphinx_.py", "SphinxRenderer"),
+                 ("myst_parser/mdit_to_docutils/transforms.py", "SortFootnotes"),
+                 ("myst_parser/mdit_to_docutils/transforms.py", "CollectFootnotes"),
+                 ("myst_parser/mdit_to_docutils/transforms.py", "ResolveAnchorIds"),
+                 ("myst_parser/mdit_to_docutils/transforms.py", "UnreferencedFootnotesDetector")]
 
 METHODS = ["render_paragraph", "render_em", "render_strong", "render_code_inline", "render_bullet_list",
            "render_ordered_list", "render_list_item", "render_blockquote", "render_hr", "render_hardbreak",
@@ -811,7 +834,7 @@ METHODS = ["render_paragraph", "render_em", "render_strong", "render_code_inline
 
 
 def shape_hash(fn):
-    return hashlib.sha256(norm(fn).encode()).hexdigest()[:16]
+    return hashlib.sha256(norm(drop_lines(fn)).encode()).hexdigest()[:16]
 
 
 def all_functions(tree):
@@ -862,6 +885,12 @@ def generate(repo=None):
     for name in SHAPES:
         need(name in fns, f"{name} missing")
         pins[name] = shape_hash(fns[name])
+    for rel, cname in SHAPE_CLASSES:
+        mod = ast.parse((repo / rel).read_text())
+        cls = [n for n in mod.body if isinstance(n, ast.ClassDef) and n.name == cname]
+        need(len(cls) == 1, f"class {cname} missing")
+        text = "\n".join(norm(drop_lines(f)) for f in cls[0].body if isinstance(f, ast.FunctionDef))
+        pins[cname] = hashlib.sha256(text.encode()).hexdigest()[:16]
     return "\n".join(out) + "\n", pins
 
 
